@@ -42,6 +42,12 @@ type File struct {
 	Spans   []Span // pre-order, link order
 	// Inline is true when the root block is the only block.
 	MaxDepth int
+	// Sparse files (BuildFileSparse) do not materialise Content: Len is the
+	// logical length and ReadAt computes bytes from the leaf spans. They are
+	// how de-duplicated files of many gigabytes are modelled.
+	Sparse bool
+	Len    int64
+	leaves map[string][]byte
 }
 
 // BuildFile walks a stored file DAG.
@@ -51,6 +57,72 @@ func BuildFile(g Getter, root cid.Cid) (*File, error) {
 		return nil, err
 	}
 	return f, nil
+}
+
+// BuildFileSparse walks a stored file DAG without materialising its content.
+func BuildFileSparse(g Getter, root cid.Cid) (*File, error) {
+	f := &File{Root: root, Sparse: true, leaves: map[string][]byte{}}
+	if err := f.walk(g, root, 0, -1); err != nil {
+		return nil, err
+	}
+	return f, nil
+}
+
+// ReadAt returns the logical bytes [a,b) of a sparse file.
+func (f *File) ReadAt(a, b int64) []byte {
+	if !f.Sparse {
+		return f.Content[a:b]
+	}
+	out := make([]byte, 0, b-a)
+	// leaf spans are in increasing order of Start; binary search the first
+	lo, hi := 0, len(f.Spans)
+	for lo < hi {
+		mid := (lo + hi) / 2
+		if f.Spans[mid].End <= a {
+			lo = mid + 1
+		} else {
+			hi = mid
+		}
+	}
+	// Spans are pre-order: End of an interior span can exceed later leaves'
+	// starts, so scan back a little to be safe, then forward over leaves
+	for lo > 0 && f.Spans[lo-1].End > a {
+		lo--
+	}
+	for i := lo; i < len(f.Spans) && int64(len(out)) < b-a; i++ {
+		s := f.Spans[i]
+		if !s.Leaf || s.End <= a || s.Start >= b {
+			continue
+		}
+		data := f.leaves[s.Cid.KeyString()]
+		from, to := int64(0), s.End-s.Start
+		if a > s.Start {
+			from = a - s.Start
+		}
+		if b < s.End {
+			to = b - s.Start
+		}
+		out = append(out, data[from:to]...)
+	}
+	return out
+}
+
+func (f *File) pos() int64 {
+	if f.Sparse {
+		return f.Len
+	}
+	return int64(len(f.Content))
+}
+
+func (f *File) emit(c cid.Cid, b []byte) {
+	if f.Sparse {
+		f.Len += int64(len(b))
+		if _, ok := f.leaves[c.KeyString()]; !ok {
+			f.leaves[c.KeyString()] = b
+		}
+		return
+	}
+	f.Content = append(f.Content, b...)
 }
 
 func (f *File) walk(g Getter, c cid.Cid, depth, parent int) error {
@@ -65,10 +137,10 @@ func (f *File) walk(g Getter, c cid.Cid, depth, parent int) error {
 		f.MaxDepth = depth
 	}
 	idx := len(f.Spans)
-	f.Spans = append(f.Spans, Span{Cid: c, Start: int64(len(f.Content)), Depth: depth, Parent: parent})
+	f.Spans = append(f.Spans, Span{Cid: c, Start: f.pos(), Depth: depth, Parent: parent})
 	switch c.Prefix().Codec {
 	case codecRaw:
-		f.Content = append(f.Content, data...)
+		f.emit(c, data)
 		f.Spans[idx].Leaf = true
 	case codecDagPB:
 		pn, err := merkledag.DecodeProtobuf(data)
@@ -85,7 +157,7 @@ func (f *File) walk(g Getter, c cid.Cid, depth, parent int) error {
 			return fmt.Errorf("model: %s is not a file node (type %v)", c, fsn.Type())
 		}
 		if len(pn.Links()) == 0 {
-			f.Content = append(f.Content, fsn.Data()...)
+			f.emit(c, fsn.Data())
 			f.Spans[idx].Leaf = true
 		} else {
 			for _, l := range pn.Links() {
@@ -97,7 +169,7 @@ func (f *File) walk(g Getter, c cid.Cid, depth, parent int) error {
 	default:
 		return fmt.Errorf("model: unsupported codec %x", c.Prefix().Codec)
 	}
-	f.Spans[idx].End = int64(len(f.Content))
+	f.Spans[idx].End = f.pos()
 	return nil
 }
 
